@@ -422,7 +422,7 @@ Inductive out :=
 | RDirs (l : list info)
 | RCount (n : Z)
 | RStat (i : info)
-| RTab (l : list (bstr * Z * Z * bool * Z)).
+| RTab (l : list (bstr * Z * Z * bool * Z)) (gone : list (N * Z * Z)).
 
 Definition get_ref (t : ftab) (fid : N) : res sfid :=
   if (fid =? NOFID)%N then Err e_unknownfid
@@ -642,6 +642,16 @@ Definition ref_table (s : store) : list (bstr * Z * Z * bool * Z) :=
           (if Nat.eqb (fst xp) 0 then 1 else 0) + Z.of_nat (count_occ Nat.eq_dec linked (fst xp)),
           is_dir_mode (n_info n), zlen (n_data n))) r.
 
+(* nodes no longer reachable from the root (hook VerifEntRef.State): qid path, nref, number of children (-1: no map) *)
+Definition gone_table (s : store) : list (N * Z * Z) :=
+  let r := map fst (reach (S (length s)) s 0 [SLASH]) in
+  flat_map (fun x =>
+              if existsb (Nat.eqb x) r then []
+              else let n := getn s x in
+                   [(i_qpath (n_info n), n_ref n,
+                     match n_children n with None => -1 | Some cs => zlen cs end)])
+           (seq 0 (length s)).
+
 (* ---- operations ---- *)
 
 Inductive op :=
@@ -677,7 +687,7 @@ Definition step (w : world) (o : op) : world * res out :=
   | OWstat s fid mode uid gid nm len => sess_wstat w s fid mode uid gid nm len
   | ORemove s fid => sess_remove w s fid
   | OClunk s fid => sess_clunk w s fid
-  | ORefTable => (w, Ok (RTab (ref_table (wst w))))
+  | ORefTable => (w, Ok (RTab (ref_table (wst w)) (gone_table (wst w))))
   end.
 
 Definition root_node : node :=
